@@ -129,39 +129,87 @@ theorem transparent_require_kwargs : TransparentOn dRequireKwargs KeywordCall :=
 
 /-- nothing positional (or only the instance of a method that `DecoratedFunction` recognises): the guard is silent -/
 theorem keyword_call_passes_guard (g : Guard) (a : Args) (hf : g.notFunction = false)
-    (h : (a.pos = [] ∧ g.selfFirst = false) ∨ (g.selfFirst = true ∧ a.pos.length = 1)) :
+    (h : (a.pos = [] ∧ g.isInstanceMethod = false) ∨ (g.isInstanceMethod = true ∧ a.pos.length = 1)) :
     g.rejects a = none := by
   rcases h with ⟨h, hs⟩ | ⟨h1, h2⟩
   · simp [Guard.rejects, Guard.trips, Guard.argsWithoutSelf, h, hf, hs]
   · have : a.pos ≠ [] := by intro h; simp [h] at h2
     simp [Guard.rejects, Guard.trips, Guard.argsWithoutSelf, h1, h2, hf, this]
 
-/-- the region of the open finding `requireKwargsOnBoundMethodNeedsPositionalArgument`: the callable's first parameter is spelled
-    `self` and the wrapper receives no positional argument at all — a bound method handed to the decorator and called by keyword -/
-def inBoundRegion (g : Guard) (a : Args) : Bool := g.selfFirst && a.pos.isEmpty
+/-- generated fact, re-read from `DecoratedFunction.is_instance_method` on every run (fix 86bfec9): a bound method object is not an
+    "instance method" whose instance would still be among the arguments -/
+theorem bound_method_is_no_instance_method (g : Guard) (hm : g.isMethodObj = true) : g.isInstanceMethod = false := by
+  have : instanceMethodExcludesBound = true := by decide
+  simp [Guard.isInstanceMethod, hm, this]
 
-/-- a callable whose source spells `*args` is never refused, however many positional arguments the caller passes (outside the region
-    above) -/
+/-- the one well-formedness condition on a call that is left: the FUNCTION of a method (first parameter spelled `self`, not a bound
+    method object) gets its instance as a positional argument — which attribute access on an instance always does (`.bound`, see
+    `transparent_require_kwargs_star_args_via_instance`); only `K.method(self=obj, …)` through the class does not -/
+def InstancePositional (g : Guard) (a : Args) : Prop := g.isInstanceMethod = true → a.pos ≠ []
+
+/-- a callable whose source spells `*args` is never refused, however many positional arguments the caller passes -/
 theorem star_args_call_passes_guard (g : Guard) (a : Args) (hf : g.notFunction = false) (hw : g.wantsArgs = true)
-    (hr : inBoundRegion g a = false) :
+    (hi : InstancePositional g a) :
     g.rejects a = none := by
-  have hr' : (g.selfFirst && a.pos.isEmpty) = false := hr
-  simp [Guard.rejects, Guard.trips, Guard.shouldHaveKwargs, hf, hw, hr']
+  have hr : (g.isInstanceMethod && a.pos.isEmpty) = false := by
+    cases h : g.isInstanceMethod with
+    | false => simp
+    | true => have := hi h; cases hp : a.pos with
+      | nil => exact absurd hp this
+      | cons x xs => simp
+  simp [Guard.rejects, Guard.trips, Guard.shouldHaveKwargs, hf, hw, hr]
 
 /-- **positional arguments that `require_kwargs` lets through reach the callable unchanged**: whatever is decorated — `inner` is any
     callable: a plain function, `.bound self …` for a bound method handed to the decorator call, anything stacked — and however
     `DecoratedFunction` classifies it (static method, class / bound method, instance method, several decorators: `p.guard` is
-    arbitrary apart from the two hypotheses), a callable that takes `*args` receives every positional and keyword argument of the
-    caller: same body invocation with the same bound arguments (surplus positionals included), same result / exception object -/
-theorem transparent_require_kwargs_star_args_partial (p : Params) (inner : Fn) (a : Args) (w : World)
-    (hf : p.guard.notFunction = false) (hw : p.guard.wantsArgs = true) (hr : inBoundRegion p.guard a = false) :
+    arbitrary apart from the hypotheses), a callable that takes `*args` receives every positional and keyword argument of the
+    caller: same body invocation with the same bound arguments (surplus positionals included), same result / exception object.
+    Full statement: every form of callable, every argument tuple in which the function of a method gets its instance positionally. -/
+theorem transparent_require_kwargs_star_args_full (p : Params) (inner : Fn) (a : Args) (w : World)
+    (hf : p.guard.notFunction = false) (hw : p.guard.wantsArgs = true) (hi : InstancePositional p.guard a) :
     bodyObs (invoke (.deco dRequireKwargs p inner) a w) = bodyObs (invoke inner a w) :=
-  transparent_require_kwargs p inner a w (star_args_call_passes_guard p.guard a hf hw hr)
+  transparent_require_kwargs p inner a w (star_args_call_passes_guard p.guard a hf hw hi)
 
-/-- the full statement (no region guard).  It is **false** for the code as it is: see the witness. -/
-def transparent_require_kwargs_star_args_full : Prop :=
-  ∀ (p : Params) (inner : Fn) (a : Args) (w : World), p.guard.notFunction = false → p.guard.wantsArgs = true →
-    bodyObs (invoke (.deco dRequireKwargs p inner) a w) = bodyObs (invoke inner a w)
+/-- … a BOUND method handed to the decorator call (`require_kwargs(obj.method)`): EVERY argument tuple — keyword-only calls and calls
+    without arguments included (the region of the finding repaired by 86bfec9) -/
+theorem transparent_require_kwargs_star_args_bound_method (p : Params) (inner : Fn) (a : Args) (w : World)
+    (hf : p.guard.notFunction = false) (hw : p.guard.wantsArgs = true) (hm : p.guard.isMethodObj = true) :
+    bodyObs (invoke (.deco dRequireKwargs p inner) a w) = bodyObs (invoke inner a w) :=
+  transparent_require_kwargs_star_args_full p inner a w hf hw
+    (fun h => by rw [bound_method_is_no_instance_method p.guard hm] at h; cases h)
+
+/-- … a decorated method reached through an instance (attribute access binds the instance in front): every argument tuple -/
+theorem transparent_require_kwargs_star_args_via_instance (p : Params) (inner : Fn) (s : Nat) (a : Args) (w : World)
+    (hf : p.guard.notFunction = false) (hw : p.guard.wantsArgs = true) :
+    bodyObs (invoke (.bound s (.deco dRequireKwargs p inner)) a w) = bodyObs (invoke (.bound s inner) a w) := by
+  have h := transparent_require_kwargs_star_args_full p inner { a with pos := s :: a.pos } w hf hw (fun _ => by simp)
+  simpa [invoke, call] using h
+
+/-- … a callable whose first parameter is not spelled `self` (plain function, static method, class method): every argument tuple -/
+theorem transparent_require_kwargs_star_args_no_self (p : Params) (inner : Fn) (a : Args) (w : World)
+    (hf : p.guard.notFunction = false) (hw : p.guard.wantsArgs = true) (hs : p.guard.selfFirst = false) :
+    bodyObs (invoke (.deco dRequireKwargs p inner) a w) = bodyObs (invoke inner a w) :=
+  transparent_require_kwargs_star_args_full p inner a w hf hw (fun h => by simp [Guard.isInstanceMethod, hs] at h)
+
+/-- **`require_kwargs(obj.method)` is transparent for keyword calls**: a bound method handed to the decorator call, whatever its
+    signature (with or without `*args`), called without positional arguments -/
+theorem transparent_require_kwargs_bound_method_keyword_call (p : Params) (inner : Fn) (a : Args) (w : World)
+    (hf : p.guard.notFunction = false) (hm : p.guard.isMethodObj = true) (hk : a.pos = []) :
+    bodyObs (invoke (.deco dRequireKwargs p inner) a w) = bodyObs (invoke inner a w) :=
+  transparent_require_kwargs p inner a w
+    (keyword_call_passes_guard p.guard a hf (Or.inl ⟨hk, bound_method_is_no_instance_method p.guard hm⟩))
+
+/-- … and a positional call of a bound method WITHOUT `*args` (undecorated source: no decorator lines) is refused with
+    `PedanticCallWithArgsException` before anything runs — the instance is not mistaken for an argument any more -/
+theorem require_kwargs_bound_method_rejects_positional (p : Params) (inner : Fn) (a : Args) (w : World) (hc : inner.isCoro = false)
+    (hf : p.guard.notFunction = false) (hm : p.guard.isMethodObj = true) (hw : p.guard.wantsArgs = false)
+    (hs : p.guard.isStatic = false) (hn : p.guard.nDecorators = 0) (hp : a.pos ≠ []) :
+    invoke (.deco dRequireKwargs p inner) a w = (.exc (.lib "PedanticCallWithArgsException"), [], w) := by
+  have hi := bound_method_is_no_instance_method p.guard hm
+  have hl : 0 < a.pos.length := by cases h : a.pos with | nil => exact absurd h hp | cons x xs => simp
+  have hr : p.guard.rejects a = some "PedanticCallWithArgsException" := by
+    simp [Guard.rejects, Guard.trips, Guard.shouldHaveKwargs, Guard.argsWithoutSelf, hf, hi, hw, hs, hn, hl]
+  simp [dRequireKwargs, invoke, call, callLayer, select, findWrapper, runWrapper, execL, exec, mkFrame, bindVar, hc, hr]
 
 /-- the call sites among the top-level statements of a wrapper body: whom it calls, with which positional and keyword arguments,
     awaited or not -/
@@ -551,17 +599,21 @@ theorem trace_class_fails_static_on_instance : ¬ class_transparent_full dTrace 
 def bStarM : Body := ⟨false, ⟨[1], [4], [4], true, false⟩, fun i => .ret ⟨100 + i, 100 + i⟩⟩
 def pBound : Params := { p0 with guard := ⟨true, true, false, 0, false, true, false⟩ }
 
-/-- the complement really is violated (open finding `requireKwargsOnBoundMethodNeedsPositionalArgument`): `require_kwargs(obj.target)`
-    called by keyword only raises `IndexError` inside `FunctionCall.__init__` where `obj.target(c=…)` returns normally … -/
-theorem require_kwargs_bound_method_keyword_call_witness :
-    inBoundRegion pBound.guard ⟨[], [(4, 14)]⟩ = true
-    ∧ (invoke (.deco dRequireKwargs pBound (.bound 50 (.body bStarM))) ⟨[], [(4, 14)]⟩ w0).1.tag = .exc (.lib "IndexError")
-    ∧ (invoke (.bound 50 (.body bStarM)) ⟨[], [(4, 14)]⟩ w0).1.tag = .obj ⟨100, 100⟩ := by decide
+/-- the former failing input of finding `requireKwargsOnBoundMethodNeedsPositionalArgument` (repaired by 86bfec9): `require_kwargs(obj.target)`
+    called by keyword only now behaves like `obj.target(c=…)` -/
+example : bodyObs (invoke (.deco dRequireKwargs pBound (.bound 50 (.body bStarM))) ⟨[], [(4, 14)]⟩ w0)
+    = bodyObs (invoke (.bound 50 (.body bStarM)) ⟨[], [(4, 14)]⟩ w0)
+    ∧ (invoke (.deco dRequireKwargs pBound (.bound 50 (.body bStarM))) ⟨[], [(4, 14)]⟩ w0).1.tag = .obj ⟨100, 100⟩ := by decide
 
-theorem transparent_require_kwargs_star_args_full_false : ¬ transparent_require_kwargs_star_args_full := by
-  intro h
-  have := h pBound (.bound 50 (.body bStarM)) ⟨[], [(4, 14)]⟩ w0 rfl rfl
-  revert this; decide
+/-- what the hypothesis `InstancePositional` of the full statement excludes is still true of the code: the decorated FUNCTION of a
+    method reached through the class with the instance passed by keyword (`K.target(self=obj, c=…)`) raises `IndexError` inside
+    `FunctionCall.__init__`, where the undecorated `K.target(self=obj, c=…)` returns normally -/
+def pMethod : Params := { p0 with guard := ⟨true, true, false, 1, true, false, false⟩ }
+theorem require_kwargs_self_by_keyword_witness :
+    ¬ InstancePositional pMethod.guard ⟨[], [(1, 50), (4, 14)]⟩
+    ∧ (invoke (.deco dRequireKwargs pMethod (.body bStarM)) ⟨[], [(1, 50), (4, 14)]⟩ w0).1.tag = .exc (.lib "IndexError")
+    ∧ (invoke (.body bStarM) ⟨[], [(1, 50), (4, 14)]⟩ w0).1.tag = .obj ⟨100, 100⟩ := by
+  refine ⟨fun h => h (by decide) rfl, by decide, by decide⟩
 
 /-- … while with a positional argument the same decorated bound method passes every argument on -/
 example : bodyObs (invoke (.deco dRequireKwargs pBound (.bound 50 (.body bStarM))) ⟨[11, 12, 13], [(4, 14)]⟩ w0)
